@@ -2,7 +2,9 @@ package c19
 
 import (
 	"bytes"
+	"errors"
 	"fmt"
+	"io"
 	"unsafe"
 
 	"pgregory.net/rapid"
@@ -112,6 +114,66 @@ func (p *probe) scribble() {
 		}
 		a.orig = append([]byte{}, a.buf...)
 	}
+}
+
+// rebase re-baselines every arena after the CALLER changed what its buffers hold.
+func (p *probe) rebase() {
+	for _, a := range p.arenas {
+		a.orig = append([]byte{}, a.buf...)
+	}
+}
+
+// slot returns an arena-backed buffer of n bytes that the caller refills between calls (fill).
+func (p *probe) slot(label string, n int) *arena {
+	p.in(label, make([]byte, n))
+	return p.arenas[len(p.arenas)-1]
+}
+
+// fill puts data (len(data) <= the slot's size) at the start of the slot, as a caller does that
+// reuses one buffer for successive values, and returns the slice the caller passes on: its spare
+// capacity is the rest of the slot plus the slot's drawn spare capacity.
+func (p *probe) fill(a *arena, data []byte) []byte {
+	if len(data) > a.n {
+		p.t.Fatalf("harness: slot %q holds %d bytes, value has %d", a.label, a.n, len(data))
+	}
+	copy(a.buf[guardLen:], data)
+	a.orig = append([]byte{}, a.buf...)
+	return a.buf[guardLen : guardLen+len(data) : guardLen+a.n+a.spare]
+}
+
+var errReadBudget = errors.New("harness: read budget used up before the stream ended")
+
+var readSizes = []int{1, 7, 16, 64, 300, 5000}
+
+// readStream reads r up to its first error through destination buffers placed in arenas. The bytes
+// inside dst[:len(dst)] are the reader's to write (io.Reader: all of p may be used as scratch);
+// the spare capacity behind them and the memory around them are not. expect is the length the
+// caller expects (it bounds the number of calls).
+func (p *probe) readStream(op string, r io.Reader, expect int) ([]byte, error) {
+	var sizes []int
+	for _, s := range readSizes {
+		if s*24 >= expect {
+			sizes = append(sizes, s)
+		}
+	}
+	var got []byte
+	for i := 0; i < expect+8; i++ {
+		n := rapid.SampledFrom(sizes).Draw(p.t, "read_size")
+		dst := p.in("read destination", make([]byte, n))
+		a := p.arenas[len(p.arenas)-1]
+		k, err := r.Read(dst)
+		if k < 0 || k > n {
+			p.t.Fatalf("%s: %s into %d bytes returned n = %d", p.desc, op, n, k)
+		}
+		copy(a.orig[guardLen:guardLen+n], a.buf[guardLen:guardLen+n])
+		p.verify(op)
+		got = append(got, dst[:k]...)
+		p.arenas = p.arenas[:len(p.arenas)-1] // the destination is done with: keeps verify flat
+		if err != nil {
+			return got, err
+		}
+	}
+	return got, errReadBudget
 }
 
 // flipAll inverts every byte of b within its full capacity (mutating a returned value).
